@@ -477,6 +477,9 @@ func nonNegative(v ssa.Value, depth int, seen map[ssa.Value]bool) bool {
 		}
 	case *ssa.Convert:
 		return nonNegative(x.X, depth+1, seen)
+	case *ssa.Parameter:
+		// what every caller passes (the function must only be called directly)
+		return paramNonNegative(x)
 	}
 	return false
 }
